@@ -38,6 +38,8 @@ class Req:
         self.wire_end = 0
         self.te_trailers = False
         self.fail: Optional[tuple] = None
+        self.host = b"example.test"
+        self.extra: Dict[str, Any] = {}
 
 
 class ConnPlan:
@@ -185,7 +187,7 @@ def gen_simple_request(tape: Tape, opts: Dict[str, Any], req: Req, h2: bool) -> 
 
 
 def build_h1_wire(tape: Tape, opts: Dict[str, Any], req: Req) -> None:
-    headers = [(b"Host", b"example.test"), (b"x-tag", req.tag)] + list(req.headers)
+    headers = [(b"Host", req.host), (b"x-tag", req.tag)] + list(req.headers)
     if req.body or (req.method in (b"POST", b"PUT") and tape.chance(1, 2, "req.cl0")):
         if req.version == b"1.1" and tape.chance(1, 2, "req.chunked"):
             req.framing = "chunked"
@@ -274,6 +276,36 @@ def gen_session(tape: Tape, world: World, host: AppHost, opts: Dict[str, Any],
     return session
 
 
+def inject_client_fault(tape: Tape, plan: "ConnPlan", kinds: List[str]) -> Optional[tuple]:
+    """Insert a client-side fault (fin/rst/close) at a tape-chosen point of the script."""
+    steps = plan.script.steps
+    kind = tape.choice(kinds, "fault.kind")
+    if kind == "none" or not steps:
+        return None
+    idx = tape.draw(len(steps), "fault.at")
+    step = steps[idx]
+    new: List[tuple] = []
+    where = f"before step {idx} ({step[0]})"
+    if step[0] == "send" and len(step[1]) > 1 and tape.chance(2, 3, "fault.midsend"):
+        cutpos = 1 + tape.draw(len(step[1]) - 1, "fault.cut")
+        new.append(("send", step[1][:cutpos]))
+        where = f"after {cutpos} bytes of step {idx}"
+        rest: List[tuple] = [("send", step[1][cutpos:])] + steps[idx + 1 :]
+    else:
+        rest = steps[idx:]
+    delay = tape.choice([0.0, 0.0, 0.0005, 0.02], "fault.delay")
+    if delay:
+        new.append(("sleep", delay))
+    new.append((kind,))
+    if kind == "fin":
+        # half-close: keep reading whatever the server still sends
+        new.extend(s for s in rest if s[0] in ("wait", "sleep", "resume"))
+    new.append(("wait", lambda sc: False, 30.0))
+    plan.script.steps = steps[:idx] + new
+    plan.fault = (kind, where)
+    return plan.fault
+
+
 def _send_in_pieces(tape: Tape, steps: list, data: bytes) -> None:
     pieces = cut(data, split_points(tape, len(data), 1 + tape.weighted([6, 2, 1], "c.pieces")))
     for pi, piece in enumerate(pieces):
@@ -322,7 +354,7 @@ def _build_h1_script(tape: Tape, opts: Dict[str, Any], world: World, plan: ConnP
 
 
 def h2_request_headers(req: Req) -> List[tuple]:
-    headers = [(b":method", req.method), (b":scheme", b"http"), (b":authority", b"example.test"),
+    headers = [(b":method", req.method), (b":scheme", b"http"), (b":authority", req.host),
                (b":path", req.target), (b"x-tag", req.tag)]
     if req.te_trailers:
         headers.append((b"te", b"trailers"))
